@@ -20,6 +20,7 @@ import (
 	"fmt"
 	"os"
 	"path/filepath"
+	"runtime/coverage"
 	"sort"
 	"strings"
 
@@ -170,5 +171,15 @@ func Main(a Area) {
 	data, _ := json.MarshalIndent(meta, "", " ")
 	if err := os.WriteFile(filepath.Join(*out, "meta.json"), data, 0o644); err != nil {
 		panic(err)
+	}
+	// binaries built with -cover: flush coverage explicitly (harnesses may
+	// leave parked goroutines behind, the exit hook is not relied upon)
+	if dir := os.Getenv("GOCOVERDIR"); dir != "" {
+		if err := coverage.WriteMetaDir(dir); err != nil {
+			fmt.Fprintln(os.Stderr, "coverage meta:", err)
+		}
+		if err := coverage.WriteCountersDir(dir); err != nil {
+			fmt.Fprintln(os.Stderr, "coverage counters:", err)
+		}
 	}
 }
